@@ -80,10 +80,35 @@ def make_noisy_impl(n, times, observables=None, omega=0.0, ops=None, ev_times=(0
     return mbi.NoisyMPSBackendImpl(cfg, data)
 
 
-def run_real_tape(n, times, tape, max_progress=100000):
+class FnTracer(Tracer):
+    """Environment whose squared norm is a FUNCTION of time: norm^2(t) = exp(-gamma (t - t_last_jump)); the uniform
+    draws cycle through `us`. The values handed out are recorded in `used` (the tape the model is given)."""
+
+    def __init__(self, gamma, us, max_sweeps=400):
+        super().__init__(env_tape=[], stub_evolve=True)
+        self.gamma, self.us, self.max_sweeps = gamma, us, max_sweeps
+        self.used, self.t0, self._nj = [], 0.0, 0
+
+    def tape_left(self):
+        return len(self.used) < self.max_sweeps
+
+    def next_env(self):
+        if len(self.used) >= self.max_sweeps:
+            raise TapeOut()
+        js = [r for r in self.recs if r.startswith("J,")]
+        if len(js) != self._nj:
+            self._nj, self.t0 = len(js), b2f(js[-1].split(",")[1])
+        t = self.impl.target_time if self.used else 0.0
+        sq = math.exp(-self.gamma * max(t - self.t0, 0.0))
+        self.env = (math.sqrt(sq), self.us[self._nj % len(self.us)], 1.0, len(self.used) % 4)
+        self.used.append(self.env)
+        self.env_pos = len(self.used)
+
+
+def run_real_tape(n, times, tape, max_progress=100000, tracer=None):
     """Drive the real NoisyMPSBackendImpl with an environment tape [(norm, u, post_norm, choice)].
     Returns (status, records, tracer)."""
-    tr = Tracer(env_tape=tape, stub_evolve=True)
+    tr = tracer if tracer is not None else Tracer(env_tape=tape, stub_evolve=True)
     tr.jump_info, tr.done_open = [], []
     status = None
     with traced(tr):
@@ -219,6 +244,10 @@ def oracle(times, recs, tr, status, tape_driven=True):
     for (t, a, b, fa, fb) in getattr(tr, "jump_info", []):
         if not (abs(b - a) < 1 and fa * fb <= 0 and (t == a or t == b)):
             return f"jump at {t!r} not at an end of a converged sign-change bracket a={a!r} b={b!r} fa={fa!r} fb={fb!r}", None
+    for (t, ok, near) in getattr(tr, "jump_clause", []):
+        if not ok:
+            return (f"jump applied at t={t!r} but no two evaluated points within 1 ns of each other bracket t with a sign change of "
+                    f"norm^2 - threshold; evaluated (time, norm^2 - threshold) nearest to t: {near!r}"), None
     if any(getattr(tr, "done_open", [])):
         return "a time step completed while a root search was open", None
     if status == "done" and step != len(times) - 1:
@@ -245,11 +274,26 @@ def _hooks(tr):
     from unittest import mock
     NB = mbi.NoisyMPSBackendImpl
     o_jump, o_tsc, o_sc = NB.do_random_quantum_jump, mbi.MPSBackendImpl.timestep_complete, NB.sweep_complete
+    o_sjt = NB.set_jump_threshold
+    tr.evals, tr.jump_clause = [], []
 
     def w_jump(self):
         rf = self.root_finder
         tr.jump_info.append((self.current_time, rf.a, rf.b, rf.fa, rf.fb))
+        # the property clause itself, on what the back-end actually evaluated since the threshold was drawn:
+        # two points within 1 ns of each other, one on each side of t (or at t), whose SQUARED-norm gaps differ in sign
+        t = self.current_time
+        pts = tr.evals
+        ok = any(p[0] <= t <= q[0] and q[0] - p[0] < 1 and p[1] * q[1] <= 0 for p in pts for q in pts)
+        near = sorted(pts, key=lambda p: abs(p[0] - t))[:6]
+        tr.jump_clause.append((t, ok, sorted(near)))
         return o_jump(self)
+
+    def w_sjt(self, bound):
+        r = o_sjt(self, bound)
+        # a new threshold: the trajectory restarts here; first evaluated point = (now, norm^2 - new threshold)
+        tr.evals = [(self.current_time, self.state.norm().item() ** 2 - self.jump_threshold)]
+        return r
 
     def w_tsc(self):
         tr.done_open.append(getattr(self, "root_finder", None) is not None)
@@ -257,13 +301,17 @@ def _hooks(tr):
 
     def w_sc(self):
         tr.prev_gap = self.norm_gap_before_jump
+        # the state has just been evolved to target_time: record what its squared norm is there, independently of
+        # what the code stores or feeds to the root finder
+        tr.evals.append((self.target_time, self.state.norm().item() ** 2 - self.jump_threshold))
         return o_sc(self)
     return [mock.patch.object(NB, "do_random_quantum_jump", w_jump),
+            mock.patch.object(NB, "set_jump_threshold", w_sjt),
             mock.patch.object(mbi.MPSBackendImpl, "timestep_complete", w_tsc),
             mock.patch.object(NB, "sweep_complete", w_sc)]
 
 
-def run_real_tape_observed(n, times, tape):
+def run_real_tape_observed(n, times, tape, tracer=None):
     """`run_real_tape` with the oracle's hooks installed underneath the tracer's."""
     import contextlib
     tr0 = type("T", (), {})()
@@ -271,8 +319,9 @@ def run_real_tape_observed(n, times, tape):
     with contextlib.ExitStack() as st:
         for p in _hooks(tr0):
             st.enter_context(p)
-        status, recs, tr = run_real_tape(n, times, tape)
+        status, recs, tr = run_real_tape(n, times, tape, tracer=tracer)
     tr.jump_info, tr.done_open, tr.prev_gap = tr0.jump_info, tr0.done_open, tr0.prev_gap
+    tr.jump_clause = tr0.jump_clause
     return status, recs, tr
 
 
@@ -377,6 +426,7 @@ def physics_run(seed, n, times, omega, gamma):
             status = "err:" + classify_exception(e)
             tr.exc = e
     tr.jump_info, tr.done_open, tr.prev_gap = tr0.jump_info, tr0.done_open, tr0.prev_gap
+    tr.jump_clause = tr0.jump_clause
     msg = None
     if status == "done":
         got = impl.results.get_result_times("occupation")
@@ -398,6 +448,33 @@ def tape_cases(rep, rng, count, drv_lines, pending, sizes=(2, 3)):
         one_tape(rep, n, times, tape, drv_lines, pending, mode)
 
 
+def gen_fn(rng):
+    dt = rng.choice([10.0, 10.0, 20.0, 5.0, 37.0])
+    ns = rng.randint(2, 6)
+    times = [k * dt for k in range(ns + 1)]
+    gamma = rng.choice([0.01, 0.02, 0.05, 0.1, rng.uniform(0.005, 0.2)])
+    us = [rng.uniform(0.15, 0.9) for _ in range(rng.randint(1, 4))]
+    return dict(fn=True, n=rng.choice([2, 3]), times=times, gamma=gamma, us=us)
+
+
+def one_fn_tape(rep, d, drv_lines, pending):
+    """a tape that is a function of time (so that norm - threshold and norm^2 - threshold have different zeros)"""
+    ft = FnTracer(d["gamma"], d["us"])
+    status, recs, tr = run_real_tape_observed(d["n"], d["times"], None, tracer=ft)
+    tape = list(ft.used)
+    msg = oracle(d["times"], recs if not status.startswith("err") else tr.recs, tr, status)
+    if msg:
+        rep.fail(msg[0], dict(d, tape=[list(t) for t in tape]), klass=msg[1])
+    if status == "tapeOut":
+        tape = tape  # the model stops at the same place: it is given exactly the entries that were consumed
+    drv_lines.append(model_line(d["n"], d["times"], tape))
+    pending.append((d["n"], d["times"], tape, status + " " + (" ".join(recs) or "-"), "function-of-time", len(tr.jump_info), tr.sweeps))
+    rep.hist("tape_mode", "function-of-time")
+    rep.hist("status", status)
+    rep.hist("jumps_per_run", min(len(tr.jump_info), 10))
+    rep.hist("sites", d["n"])
+
+
 def one_tape(rep, n, times, tape, drv_lines, pending, mode):
     try:
         status, recs, tr = run_real_tape_observed(n, times, tape)
@@ -417,7 +494,7 @@ def one_tape(rep, n, times, tape, drv_lines, pending, mode):
 def check(rep: Report, tier: str, seed: int) -> None:
     rep.rule = ("case = (sites 2-4, grid, environment tape [(norm, uniform draw, post-jump norm, jump choice)]) from one "
                 "PRNG; tape modes: 1/8-lattice (exact ties, gap==0), random, decaying norm, collapsing norm (Zeno), "
-                "gap-zero histories; grids: uniform, sub-ns steps, ragged, first step long; plus exhaustive "
+                "gap-zero histories, norm^2 = exp(-gamma (t - t_last_jump)) as a function of time; grids: uniform, sub-ns steps, ragged, first step long; plus exhaustive "
                 "above/below-threshold crossing patterns (length <= 8 quick, <= 12 thorough); plus single sweep_complete "
                 "calls from arbitrary lattice states. non-trivial = at least one root search; distinct = distinct "
                 "(grid, tape) bit patterns")
@@ -445,6 +522,10 @@ def check(rep: Report, tier: str, seed: int) -> None:
 
     # 1. random adversarial tapes
     tape_cases(rep, rng, 700 if quick else 12000, lines, pending, sizes=(2, 3) if quick else (2, 3, 4))
+
+    # 1b. tapes that are a function of time: norm^2(t) = exp(-gamma (t - t_last_jump))
+    for _ in range(150 if quick else 3000):
+        one_fn_tape(rep, gen_fn(rng), lines, pending)
 
     # 2. exhaustive crossing patterns: every above/below-threshold word, two grids, 2 sites
     L = 8 if quick else 12
@@ -517,6 +598,13 @@ def search(rep: Report, seed: int, n: int) -> None:
     """Failing-input search on the real code only: many more adversarial tapes (longer, 2-4 sites) judged by the
     property oracle; the first hit is recorded with its tape."""
     rng = seeded(seed * 104729 + 18)
+    for _ in range(n // 4):
+        d = gen_fn(rng)
+        status, recs, tr = run_real_tape_observed(d["n"], d["times"], None, tracer=FnTracer(d["gamma"], d["us"]))
+        msg = oracle(d["times"], recs if not status.startswith("err") else tr.recs, tr, status)
+        if msg and msg[1] != KNOWN_CLASS:
+            rep.fail(msg[0], d, klass=msg[1])
+            return
     for _ in range(n):
         sites = rng.choice([2, 3, 4])
         times = gen_times(rng)
@@ -538,10 +626,16 @@ def replay(rep: Report, path: str) -> int:
         if d.get("physics"):
             status, recs, tr, omsg = physics_run(d["seed"], d["n"], d["times"], omega=d.get("omega", 6.0), gamma=d["gamma"])
             msg = oracle(d["times"], recs, tr, status, tape_driven=False) or ((omsg, None) if omsg else None)
+        elif d.get("fn"):
+            status, recs, tr = run_real_tape_observed(d["n"], d["times"], None, tracer=FnTracer(d["gamma"], d["us"]))
+            msg = oracle(d["times"], recs if not status.startswith("err") else tr.recs, tr, status)
         else:
             tape = [tuple(t) for t in d["tape"]]
             status, recs, tr = run_real_tape_observed(d["n"], d["times"], tape)
             msg = oracle(d["times"], recs if not status.startswith("err") else tr.recs, tr, status)
+        if msg and msg[1] == KNOWN_CLASS:
+            print("replay: (known finding D10 on this input, not counted)", msg[0][:80])
+            continue
         print("replay:", (msg[0] if msg else "property holds on this input now"))
         bad += bool(msg)
     return 1 if bad else 0
